@@ -9,7 +9,7 @@ case "$patch" in
   revert:*) git diff "${patch#revert:}~1" "${patch#revert:}" | git apply -R || exit 2 ;;
   *) git apply "$patch" || exit 2 ;;
 esac
-if ! go build ./... ; then echo "MUTANT DOES NOT COMPILE"; git checkout -- .; exit 2; fi
+if ! go build ./... ; then echo "MUTANT DOES NOT COMPILE"; git checkout -- .; git clean -fdq; exit 2; fi
 if [ "${SKIP_SUITE:-0}" != 1 ]; then
   if go test -vet=off -count=1 ./... >/dev/null 2>&1; then echo "suite: green"; else echo "suite: RED (mutant is caught by the existing tests)"; fi
 fi
@@ -19,6 +19,6 @@ for p in "$@"; do
   ./bin/verifrun -property "$p" -tier quick ${SCALE:+-scale $SCALE} 2>&1 | grep -E "VIOLATION|KNOWN|INCONCLUSIVE|seed=" | cut -c1-300 | head -8
   echo "  -> $p exit=$?"
 done
-git -C /repo checkout -- .
+git -C /repo checkout -- . && git -C /repo clean -fdq
 rm -rf /verif/evidence && mv /verif/.build/evidence.keep /verif/evidence
 rm -f /verif/replays/C[0-9][0-9]-*.json
